@@ -1,4 +1,5 @@
 import SparseSpace.Properties.C11
+import SparseSpace.Properties.C11b
 #print axioms SparseSpace.C11.romberg_coeff_sum
 #print axioms SparseSpace.C11.romberg_coeff_order
 #print axioms SparseSpace.C11.slice_weights
@@ -15,3 +16,15 @@ import SparseSpace.Properties.C11
 #print axioms SparseSpace.C11.full_tree_keeps_points
 #print axioms SparseSpace.C11.full_tree_is_full
 #print axioms SparseSpace.C11.full_tree_dyadic
+-- degree 2m+1 of the default Romberg variant for every depth m (Properties/C11b.lean)
+#print axioms SparseSpace.C11b.trapezoid_monomial_expansion
+#print axioms SparseSpace.C11b.romberg_rule_degree
+#print axioms SparseSpace.C11b.romberg_rule_degree_monomial
+#print axioms SparseSpace.C11b.romberg_degree
+#print axioms SparseSpace.C11b.romberg_degree_monomial
+#print axioms SparseSpace.C11b.romberg_degree_complete_grid
+#print axioms SparseSpace.C11b.unit_complete_grid_is_romberg
+#print axioms SparseSpace.C11b.romberg_degree_complete_grid_unit
+#print axioms SparseSpace.C11b.romberg_degree_default_variants
+#print axioms SparseSpace.C11b.polyInt_monomial
+#print axioms SparseSpace.C11b.polyInt_derivative
